@@ -282,6 +282,7 @@ def logical_extras():
         rec("R", {"type": "bytes", "logicalType": "decimal", "precision": 38, "scale": 9},
             {"type": "fixed", "name": "D16", "size": 16, "logicalType": "decimal", "precision": 38, "scale": 0},
             {"type": "map", "values": {"type": "bytes", "logicalType": "decimal", "precision": 30, "scale": 30}}),
+        rec("R", {"type": "string", "logicalType": "uuid"}, ["null", {"type": "string", "logicalType": "uuid"}], {"type": "map", "values": {"type": "string", "logicalType": "uuid"}}),
         # a float/double branch listed before a decimal branch: a Decimal is not a float
         ["null", "double", {"type": "bytes", "logicalType": "decimal", "precision": 38, "scale": 9}],
         rec("R", ["float", {"type": "bytes", "logicalType": "decimal", "precision": 6, "scale": 2}], "long"),
